@@ -152,6 +152,10 @@ pub fn bulk(run: &mut crate::common::Run, n: usize) {
                     run.report(None, "C17.f", &format!("a master key that was saved before it issued any key accepts (refresh keep={keep}) a key issued afterwards: its identifier is not registered there"), json!({"engine": "tracing-bulk"}));
                     return;
                 }
+                if let Some(m) = crate::world::tracing_part_changed(&crate::world::ser(&late), &crate::world::ser(&c)) {
+                    run.report(None, "C17.g", &format!("a key refused (refresh keep={keep}) by a master key saved before it was issued: {m}"), json!({"engine": "tracing-bulk"}));
+                    return;
+                }
             }
         }
     }
